@@ -42,6 +42,11 @@ def gen_cases(rng, tier, drift):
         c = cc.gen_case(rng, errors=False, loads=(i % 4 == 0), join_timeouts=False, unordered=True)
         c["sched"] = True
         cases.append(c)
+    for i in range(n_sched // 2):
+        # oracle-only: Thread.is_alive() is a yield point too
+        c = cc.gen_case(rng, errors=False, loads=False, join_timeouts=False, unordered=True)
+        c["sched"], c["alive_yield"] = True, True
+        cases.append(c)
     for _ in range(n_seq):
         cases.append(dict(kind="seq", pipe=ni.gen_well_typed_pipe(rng, max_depth=rng.choice([1, 2, 3, 4, 5]), threads=rng.random() < 0.5)))
     for _ in range(n_seq // 2):
@@ -53,9 +58,9 @@ def gen_cases(rng, tier, drift):
     for i in range(n_conc + n_proc):
         proc = i >= n_conc
         n = rng.choice([0, 1, 2, 5, 9, rng.randint(0, 14)])
-        nw = rng.randint(1, 4)
+        nw = rng.randint(1, 4) if proc or rng.random() < 0.85 else 0        # num_workers=0: map_fn runs inline, every other parameter still applies
         cases.append(dict(kind="conc", xs=[rng.randint(0, 30) for _ in range(n)], nw=nw, in_order=rng.random() < 0.6,
-                          method="process" if proc else "thread", mc=rng.choice([None, None, rng.randint(1, nw)]),
+                          method="process" if proc else "thread", mc=rng.choice([None, None, rng.randint(1, max(1, nw))]) if nw else None,
                           prebatch=rng.choice([None, None, 1, 2, 3]), sf=rng.choice([0, 1, 2]), add=rng.randint(0, 5),
                           delay_seed=rng.randint(0, 10**6), pf=rng.choice([None, 1, 3]), batch_after=rng.choice([None, 2, 3]),
                           drop=rng.random() < 0.5, none_mod=rng.choice([None, 2, 3])))
